@@ -7,6 +7,8 @@ import (
 	"io/ioutil"
 	"strconv"
 	"strings"
+	"sync"
+	"sync/atomic"
 
 	"encoding/hex"
 
@@ -347,6 +349,42 @@ func main() {
 					r.Fail(vh.Failure{Class: "reassembly-differs", Detail: "reassembled bytes differ from the original", Ops: []string{fmt.Sprintf("psdata %d %s", sz, vh.Hex(data))}, Got: got, Want: "ok " + vh.Hex(data)})
 				}
 			}
+		}
+	}
+
+	// ------------------------------------------------------------ concurrent deliveries (Go-side oracle only)
+	// Several peers send the same genuine part at once (the reactor's Receive runs per connection): exactly
+	// one delivery is "added", the others are duplicates, and the set completes with every slot filled.
+	for c := 0; c < r.Scale(4, 24); c++ {
+		data := r.R.Bytes(3 << 20) // 3 MiB in two parts: verifying a part takes long enough to overlap
+		ps := types.NewPartSetFromData(data, 2<<20)
+		rcv := types.NewPartSetFromHeader(ps.Header())
+		const senders = 6
+		var added int32
+		var wg sync.WaitGroup
+		start := make(chan struct{})
+		for g := 0; g < senders; g++ {
+			wg.Add(1)
+			go func() {
+				defer wg.Done()
+				orig := ps.GetPart(0)
+				cp := &types.Part{Index: orig.Index, Bytes: append([]byte{}, orig.Bytes...), Proof: orig.Proof}
+				<-start
+				if ok, _ := rcv.AddPart(cp, true); ok {
+					atomic.AddInt32(&added, 1)
+				}
+			}()
+		}
+		close(start)
+		wg.Wait()
+		r.Count("concurrent-same-part")
+		if added != 1 || rcv.Count() != 1 {
+			r.Fail(vh.Failure{Class: "concurrent-deliveries-of-one-part-counted-more-than-once", Detail: fmt.Sprintf("%d concurrent deliveries of the same genuine part: %d reported as added, Count() = %d of %d", senders, added, rcv.Count(), rcv.Total()),
+				Ops: []string{"go concurrent-same-part"}, Got: fmt.Sprintf("added=%d count=%d", added, rcv.Count()), Want: "added=1 count=1"})
+			continue
+		}
+		if ok, _ := rcv.AddPart(ps.GetPart(1), true); !ok || !rcv.IsComplete() {
+			r.Fail(vh.Failure{Class: "part-set-does-not-complete", Detail: "after every part was delivered the set is not complete", Ops: []string{"go concurrent-same-part"}, Got: fmt.Sprint(rcv.Count()), Want: "complete"})
 		}
 	}
 }
